@@ -8,6 +8,37 @@ thread_local! {
     static PEAK: Cell<i64> = const { Cell::new(0) };
     static TOTAL: Cell<u64> = const { Cell::new(0) };
     static BIGGEST: Cell<u64> = const { Cell::new(0) };
+    /// Largest single request allowed on this thread (0 = unlimited). A larger
+    /// request is refused (null), which makes Rust abort the process; the driver
+    /// attributes the abort to the run in flight.
+    static CAP: Cell<usize> = const { Cell::new(0) };
+}
+
+pub fn set_thread_cap(bytes: usize) {
+    let _ = CAP.try_with(|c| c.set(bytes));
+}
+
+#[inline]
+fn over_cap(n: usize) -> bool {
+    let cap = CAP.try_with(|c| c.get()).unwrap_or(0);
+    if cap != 0 && n > cap {
+        // no allocation here: fixed buffer, raw write
+        let mut buf = [0u8; 64];
+        let prefix = b"VSIM-ALLOC-CAP bytes=";
+        buf[..prefix.len()].copy_from_slice(prefix);
+        let mut i = prefix.len();
+        let mut digits = [0u8; 24];
+        let mut d = 0;
+        let mut v = n;
+        if v == 0 { digits[0] = b'0'; d = 1; }
+        while v > 0 { digits[d] = b'0' + (v % 10) as u8; v /= 10; d += 1; }
+        while d > 0 { d -= 1; buf[i] = digits[d]; i += 1; }
+        buf[i] = b'\n';
+        i += 1;
+        unsafe { libc::write(2, buf.as_ptr() as *const libc::c_void, i); }
+        return true;
+    }
+    false
 }
 
 pub struct Counting;
@@ -37,6 +68,9 @@ fn sub(n: usize) {
 
 unsafe impl GlobalAlloc for Counting {
     unsafe fn alloc(&self, l: Layout) -> *mut u8 {
+        if over_cap(l.size()) {
+            return std::ptr::null_mut();
+        }
         let p = unsafe { System.alloc(l) };
         if !p.is_null() {
             add(l.size());
@@ -44,6 +78,9 @@ unsafe impl GlobalAlloc for Counting {
         p
     }
     unsafe fn alloc_zeroed(&self, l: Layout) -> *mut u8 {
+        if over_cap(l.size()) {
+            return std::ptr::null_mut();
+        }
         let p = unsafe { System.alloc_zeroed(l) };
         if !p.is_null() {
             add(l.size());
@@ -55,6 +92,9 @@ unsafe impl GlobalAlloc for Counting {
         sub(l.size());
     }
     unsafe fn realloc(&self, p: *mut u8, l: Layout, new: usize) -> *mut u8 {
+        if over_cap(new) {
+            return std::ptr::null_mut();
+        }
         let q = unsafe { System.realloc(p, l, new) };
         if !q.is_null() {
             sub(l.size());
